@@ -22,13 +22,17 @@ MANIFEST = dict(
           "windows-1252 and html.unescape tables; lossless_*_needs_safe are the decided counterexamples = the two known findings); "
           "<meta charset>/<meta http-equiv=content-type content> get placeholders at parse time and render with the target's name, '' / "
           "removed for PYTHON_SPECIFIC_ENCODINGS, untouched for eventual_encoding=None (meta_rewritten_charset, meta_untouched(_charset), "
-          "meta_content_placeholder, meta_rewritten_content_partial, content_rewritten_spellings and charset_re_tolerant over the generated "
+          "meta_content_placeholder, meta_rewritten_content_partial and meta_rewritten_content_verbatim for ANY target name (digits, "
+          "backslashes, \\g<1>…: the rewrite is literal), content_rewritten_spellings and charset_re_tolerant over the generated "
           "shape of the live CHARSET_RE, xml_declaration, python_specific_table); a declared-charset finder returns the target name on the "
           "bytes of an ASCII-compatible codec (redetect_charset_partial, redetect_content_partial). Tie: differential runs of the real code "
           "against the Lean model (xmlcharrefreplace/strict byte-for-byte on 15 single-byte codecs and string-level on the others, "
           "CHARSET_RE.sub/search, set_up_substitutions, decode/prettify/decode_contents renderings, the reader on the writer's image) and "
           "the direct oracle on generated documents x encodings x entry points (bytes; decode; re-parse recovers values; declaration; "
-          "original_encoding of a re-parse)."),
+          "original_encoding of a re-parse). Target names are drawn from the spellings codecs.lookup accepts — digit-leading labels "
+          "('866', '437', '1252', '8859'…), mixed case, other separators and regex/format metacharacters ('utf\\8', 'utf$8', "
+          "'UTF{8', 'latin\\1', '(utf8)') — every accepted spelling x 4 declarations x every entry point each run; old declared "
+          "values and their neighbours carry digits and template metacharacters too."),
     design="7/C08",
     note=("Codecs are parameters with hypotheses, grounded by testing each real codec's laws on the characters of the case: (codec, "
           "character) pairs where CPython's codec is not round-trip lawful (shift_jis/euc-jp U+00A5 U+203E, cp932 U+00A2.., euc-kr U+3164, "
@@ -51,6 +55,80 @@ SINGLE_BYTE = ["ascii", "latin-1", "windows-1252", "iso-8859-2", "iso-8859-5", "
 # the property statement, hard-coded (NOT read from the live table)
 PROP_PYTHON_SPECIFIC = ["idna", "mbcs", "oem", "palmos", "punycode", "raw_unicode_escape", "undefined", "unicode_escape",
                         "raw-unicode-escape", "unicode-escape", "string-escape", "string_escape"]
+# Spellings of target-encoding names. `codecs.lookup` lower-cases a name and collapses every run of non-alphanumeric
+# characters to `_` before consulting the alias table, so digit-leading labels ("866", "1252"), mixed case, and names with
+# spaces or regex/format metacharacters ("utf\\8", "utf$8", "UTF{8", "latin%1", "(utf8)", "latin\\1") all name real codecs
+# and may be passed to encode()/prettify()/encode_contents(). Each candidate is validated on the running CPython
+# (valid_target_names); the declaration must carry the name *as given*.
+DIGIT_LABELS = ["866", "437", "1252", "8859", "936", "950", "646", "850", "932", "852", "855", "857", "858", "860", "861", "862",
+                "863", "865", "869", "874", "949", "1250", "1251", "1253", "1254", "1255", "1256", "1257", "1258", "1125",
+                "037", "500", "775", "1026", "1140", "273", "424"]
+SPELLINGS = ["ISO_8859-1", "iso8859_1", "Latin_1", "LATIN1", "latin 1", "Latin 1", "l1", "L1", "latin%1", "iso\\8859\\1", "latin\\1",
+             "ISO-8859-1:1987", "iso-ir-100", "csISOLatin1", "IBM819", "cp819", "8859\\", "\\8859",
+             "utf\\8", "utf$8", "UTF{8", "(utf8)", "utf-8\\", "utf+8", "utf*8", "U8", "UTF", "Utf_8", "utf 8", " utf-8", "utf-8 ", "[utf-8]",
+             "utf|8", "utf?8", "utf^8", "utf.8", "utf#8", "utf@8", "utf~8", "utf`8", "utf!8", "utf=8", "utf,8", "utf:8", "{utf}{8}", "%(utf)s8",
+             "${utf}8", "\\g<1>utf8", "utf8\\g<1>", "\\1utf8", "utf\\g<1>8", "\\utf8", "utf8$", "^utf8$", "utf-8*", "u8+",
+             "shift^jis", "Shift_JIS", "SJIS", "s_jis", "csShiftJIS", "EUC_JP", "eucjp", "ujis", "Big5", "big5-tw", "GB2312", "chinese",
+             "GBK", "CP936", "gb18030-2000", "euc_kr", "korean", "ks_c-5601-1987", "uhc", "ms932", "mskanji", "ISO-2022-JP", "csiso2022jp",
+             "Windows-1251", "windows_1252", "Windows\\1252", "cp-1252"[:0] or "CP1252", "KOI8_R", "koi8\\r", "IBM437", "ibm866", "cp866",
+             "mac_roman", "MacRoman", "macintosh", "ASCII", "US-ASCII", "us\\ascii", "ANSI_X3.4-1968", "iso-ir-6", "iso646-us",
+             "utf_16", "UTF-16", "utf\\16", "U16", "utf_16_le", "UTF-16LE", "utf\\16\\le", "UTF-16BE", "utf_32", "UTF-32", "U32", "utf\\32\\be",
+             "iso-8859-2", "latin2", "L2", "ISO_8859-5:1988", "cyrillic", "greek8", "ELOT_928", "hebrew", "latin9", "L9", "iso-8859-15",
+             "thai", "tis620", "iso8859_11", "cp874", "arabic", "windows-1256", "johab", "cp1361", "hz-gb-2312", "hzgb", "U7", "utf_7",
+             "ebcdic-cp-us"[:0] or "cp037", "IBM500", "cp500"]
+PLAIN_NAME = re.compile(r"[^\s/;'\"<>&]+\Z")
+
+_NAMES = {}
+
+
+def valid_target_names():
+    """the candidate spellings that this CPython accepts as a real (text, non Python-specific) character encoding"""
+    if _NAMES:
+        return _NAMES
+    digit, other, rejected = [], [], []
+    for n in DIGIT_LABELS + SPELLINGS:
+        if not n or n in PROP_PYTHON_SPECIFIC:
+            continue
+        try:
+            ci = codecs.lookup(n)
+            "a".encode(n)
+            ok = ci._is_text_encoding and ci.name not in {codecs.lookup(x).name for x in ("idna", "punycode", "unicode_escape",
+                                                                                           "raw_unicode_escape", "undefined")}
+        except (LookupError, UnicodeError, ValueError):
+            ok = False
+        if not ok:
+            rejected.append(n)
+        elif n[0].isdigit():
+            digit.append(n)
+        else:
+            other.append(n)
+    _NAMES.update(digit=digit, other=other, rejected=rejected, all=digit + other)
+    return _NAMES
+
+
+def sb_name(enc):
+    """the generated single-byte table (by its SINGLE_BYTE name) that a spelling resolves to, or None"""
+    try:
+        n = codecs.lookup(enc).name
+    except LookupError:
+        return None
+    for x in SINGLE_BYTE:
+        if codecs.lookup(x).name == n:
+            return x
+    return None
+
+
+def pick_encoding(r):
+    """a target encoding *name*: a canonical name of the list, or (half of the time) one of the accepted other spellings"""
+    k = r.random()
+    names = valid_target_names()
+    if k < 0.5:
+        return r.choice(ENCODINGS)
+    if k < 0.7 and names["digit"]:
+        return r.choice(names["digit"])
+    return r.choice(names["other"])
+
+
 BOM_WRITERS = {"utf-16": "utf-16", "utf-32": "utf-32"}
 KF_C1 = "C08-c1-controls-via-charref"
 KF_NONCHAR = "C08-noncharacters-in-attributes"
@@ -145,8 +223,8 @@ def facts(enc) -> CodecFacts:
 
 def codec_tok(enc, s):
     """protocol codec for `enc` restricted to the characters of `s`"""
-    if enc in SINGLE_BYTE:
-        return "sb:" + tok(enc)
+    if sb_name(enc):
+        return "sb:" + tok(sb_name(enc))
     f = facts(enc)
     encodable = sorted({c for c in s if ord(c) >= 128 and f.can(c)})
     return "set:1:" + tok("".join(encodable))
@@ -253,8 +331,10 @@ def rand_value(r, enc, ctx, bait=None, maxlen=8):
 # --------------------------------------------------------------------------------------
 KEY_CASES = ["charset", "charset", "CHARSET", "Charset", "charSet", "cHaRsEt"]
 WS_EQ = ["", "", " ", "  ", "\t"]
-MIMES = ["text/html", "text/html", "application/xhtml+xml", "text/html ", "x"]
-OLD_NAMES = ["utf8", "utf-8", "ISO-8859-1", "windows-1252", "x", "koi8-r", "shift_jis", ""]
+MIMES = ["text/html", "text/html", "application/xhtml+xml", "text/html ", "x", "text/html\\1", "\\g<2>", "(text)/html$"]
+OLD_NAMES = ["utf8", "utf-8", "ISO-8859-1", "windows-1252", "x", "koi8-r", "shift_jis", "",
+             # digits and regex/format metacharacters: the rewrite must be literal both ways
+             "866", "1252", "\\g<1>", "\\1", "$1", "%s", "{0}", "x\\", "a(b", "utf\\8", "[a-z]+", ".*", "\\g<0>\\2"]
 HTTP_EQUIV = ["Content-Type", "content-type", "CONTENT-TYPE", "Content-type"]
 
 
@@ -274,9 +354,9 @@ def content_expected(p, e, pyspec):
 def rand_content_decl(r):
     """the parts of a content value; every spelling is one that the input-side detector (dammit: case-insensitive, white
     space around `=`) reads as a declaration"""
-    return dict(mime=r.choice(MIMES), sep=r.choice([";", ";", ";", ";", "\n"]), before=r.choice(["", "", "", "; x=y", ";a=b"]), w0=r.choice(["", " ", " ", "  ", "\n", "\n "]),
+    return dict(mime=r.choice(MIMES), sep=r.choice([";", ";", ";", ";", "\n"]), before=r.choice(["", "", "", "; x=y", ";a=b", "; x=\\1", ";\\g<1>=%s"]), w0=r.choice(["", " ", " ", "  ", "\n", "\n "]),
                 key=r.choice(KEY_CASES), w1=r.choice(WS_EQ), w2=r.choice(WS_EQ), old=r.choice(OLD_NAMES),
-                after=r.choice(["", "", "", "; x=y", ";q", ";"]))
+                after=r.choice(["", "", "", "; x=y", ";q", ";", "; y=\\g<1>", ";\\2{0}$"]))
 
 
 def meta_markup(r):
@@ -468,14 +548,15 @@ def check_encode_string(ctx, batch, enc, s, stream):
             lawful = ref.encode(enc).decode(enc) == ref
         except UnicodeError:
             lawful = False
-    if enc in SINGLE_BYTE:
-        batch.ask(stream, f"enc sb:{tok(enc)} x {tok(s)}", "B:" + btok(out), case, want="B:" + btok(ref.encode(enc)))
+    sb = sb_name(enc)
+    if sb:
+        batch.ask(stream, f"enc sb:{tok(sb)} x {tok(s)}", "B:" + btok(out), case, want="B:" + btok(ref.encode(enc)))
         try:
             strict = "B:" + btok(s.encode(enc))
         except UnicodeEncodeError as ex:
             strict = f"E:{ex.start}:{ord(s[ex.start])}"
-        batch.ask(stream, f"enc sb:{tok(enc)} s {tok(s)}", strict, case)
-        batch.ask(stream, f"dec sb:{tok(enc)} {btok(out)}", tok(out.decode(enc)), case)
+        batch.ask(stream, f"enc sb:{tok(sb)} s {tok(s)}", strict, case)
+        batch.ask(stream, f"dec sb:{tok(sb)} {btok(out)}", tok(out.decode(enc)), case)
     if lawful:
         try:
             back = out.decode(enc)
@@ -528,7 +609,10 @@ def stream_xcr(ctx, batch):
 def check_subst(ctx, batch, orig, e, expected, stream, extra=None):
     el = E()["el"]
     case = {"op": "subst", "content": orig, "eventual_encoding": e} | (extra or {})
-    real = el.ContentMetaAttributeValue(orig).substitute_encoding(e)
+    try:
+        real = el.ContentMetaAttributeValue(orig).substitute_encoding(e)
+    except Exception as ex:
+        real = "RAISED " + type(ex).__name__ + ": " + str(ex)[:80]
     batch.ask(stream, f"subc {tok(e)} {tok(orig)}", tok(real), case, want=None if expected is None else tok(expected))
     batch.ask(stream, f"search {tok(orig)}", "1" if el.ContentMetaAttributeValue.CHARSET_RE.search(orig) else "0", case)
     if expected is not None and real != expected:
@@ -562,18 +646,18 @@ def stream_subst(ctx, batch):
     ctx.exhaustive_parts.append("CHARSET_RE.sub: the grid of key case x white space around '=' x lead-in x value/tail (1008 declarations x 2 targets)")
     for i in range(ctx.n(2000, 12000)):
         parts = rand_content_decl(r)
-        e = r.choice(targets + PROP_PYTHON_SPECIFIC) if r.random() < 0.7 else r.choice(ENCODINGS)
+        e = r.choice(targets + PROP_PYTHON_SPECIFIC) if r.random() < 0.5 else pick_encoding(r)
         check_subst(ctx, batch, content_value(parts), e, content_expected(parts, e, e in PROP_PYTHON_SPECIFIC), "subst-structured",
                     {"parts": parts})
     # malformed / adversarial strings: model against implementation only
     alpha = list("charsetCHARSET=;; \n\txy=") + ["ſ", "K", "\xa0", " ", "charset", "charset=", ";charset=", "\ncharset =", "CHARSET="]
     for i in range(ctx.n(4000, 25000)):
         s = "".join(r.choice(alpha) for _ in range(r.choice([1, 3, 6, 10, 16])))
-        e = r.choice(["utf-8", "idna", "x;y", "", " z"])
+        e = r.choice(["utf-8", "idna", "x;y", "", " z", "866", "1252", "\\1", "\\g<1>", "a\\", "\\", "$1", "\\n", "%s{0}"])
         check_subst(ctx, batch, s, e, None, "subst-malformed")
     # the charset style and the python-specific table
     live = sorted(el.PYTHON_SPECIFIC_ENCODINGS)
-    for e in sorted(set(ENCODINGS + PROP_PYTHON_SPECIFIC + live + ["IDNA", "", "utf-8 ", "x"])):
+    for e in sorted(set(ENCODINGS + valid_target_names()["all"] + PROP_PYTHON_SPECIFIC + live + ["IDNA", "", "utf-8 ", "x", "\\1", "\\g<1>"])):
         real = el.CharsetMetaAttributeValue("old").substitute_encoding(e)
         want = "" if e in PROP_PYTHON_SPECIFIC else e
         case = {"op": "subst-charset", "eventual_encoding": e}
@@ -686,6 +770,11 @@ def check_doc(ctx, batch, recipe, enc, entry, stream):
              expected="bytes", observed=repr(ex)[:300], kind="raises:" + entry)
         ctx.case(("doc", json.dumps(recipe, sort_keys=True), enc, entry))
         return found
+    except Exception as ex:  # e.g. re.error out of the charset rewrite: rendering must succeed for every real encoding name
+        viol(f"{entry}({enc!r}) raised {type(ex).__name__}: rendering to bytes did not succeed",
+             expected="bytes", observed=repr(ex)[:300], kind="raises-other:" + entry)
+        ctx.case(("doc", json.dumps(recipe, sort_keys=True), enc, entry))
+        return found
     if not isinstance(out, bytes):
         viol(f"{entry}({enc!r}) did not return bytes", observed=type(out).__name__)
         return found
@@ -749,18 +838,22 @@ def check_doc(ctx, batch, recipe, enc, entry, stream):
     style = info["style"]
     if style != "none" and entry != "encode_contents_body":
         m2 = again.find("meta")
-        got = declared_in(m2, style) if m2 is not None else None
+        plain = bool(PLAIN_NAME.match(enc))   # a name a reader's regex can take back verbatim (no white space, `/ ; ' " < > &`)
         both = KF_BOTH if info.get("both") else None
-        if got != enc:
-            viol("the <meta> declaration in the output does not name the target encoding", expected=enc, observed=got)
-        if both and m2 is not None and declared_in(m2, "content") != enc:
+        ctx.count("doc:name:" + ("digit-leading" if enc[:1].isdigit() else "metachar" if re.search(r"[^A-Za-z0-9_\- ]", enc) else
+                                 "canonical" if enc in ENCODINGS else "alias"))
+        if style == "charset" or plain:
+            got = declared_in(m2, style) if m2 is not None else None
+            if got != enc:
+                viol("the <meta> declaration in the output does not name the target encoding (as given)", expected=enc, observed=got)
+        if both and plain and m2 is not None and declared_in(m2, "content") != enc:
             viol("a <meta> carrying both declaration styles: the one in `content` still names the old encoding",
                  expected=enc, observed=declared_in(m2, "content"), kf=both)
         if style == "content" and m2 is not None and m2.get("content") != content_expected(info["parts"], enc, False):
             viol("the content attribute is not the original with only the charset value replaced",
                  expected=content_expected(info["parts"], enc, False), observed=m2.get("content"))
         # (d) a re-parse without help detects the target (ASCII-compatible targets; BOM-writing UTF-16/32)
-        if f.ascii_compat or f.norm in ("utf-16", "utf-32"):
+        if (f.ascii_compat and plain) or f.norm in ("utf-16", "utf-32"):
             auto = BS(out, "html.parser")
             oe = auto.original_encoding
             try:
@@ -769,8 +862,8 @@ def check_doc(ctx, batch, recipe, enc, entry, stream):
                 oen = None
             want = expected_bom_codec(out, enc)
             if oen != want:
-                viol("re-parsing the output auto-detects a different encoding", expected=want, observed=oe,
-                     kf=both)
+                viol("re-parsing the output auto-detects a different encoding (compared through codecs.lookup)", expected=want,
+                     observed=oe, kf=both)
             ctx.count("doc:redetect:" + ("bom" if f.norm in ("utf-16", "utf-32") else "declared"))
     elif style == "none" and f.norm in ("utf-16", "utf-32") and entry != "encode_contents_body":
         oe = BS(out, "html.parser").original_encoding
@@ -779,7 +872,7 @@ def check_doc(ctx, batch, recipe, enc, entry, stream):
         ctx.count("doc:redetect:bom")
     ctx.count(f"doc:entry:{entry}")
     ctx.count(f"doc:meta:{style}")
-    ctx.count("doc:enc-kind:" + ("single-byte" if enc in SINGLE_BYTE else "utf" if f.norm.startswith("utf") else "multi-byte"))
+    ctx.count("doc:enc-kind:" + ("single-byte" if sb_name(enc) else "utf" if f.norm.startswith("utf") else "multi-byte"))
     ctx.case(("doc", json.dumps(recipe, sort_keys=True), enc, entry) if nontrivial else None,
              sample={"markup": ascii(back[:160]), "encoding": enc, "entry": entry} if nontrivial else None)
     # model: the rendering, and the bytes for single-byte codecs
@@ -787,14 +880,17 @@ def check_doc(ctx, batch, recipe, enc, entry, stream):
     if batch is not None and root is not None:
         mode = {"encode": "d", "prettify": "p0", "encode_contents": "c", "encode_contents_body": "c"}[entry]
         node = soup.body if entry == "encode_contents_body" else root
-        real_str = {"d": lambda: root.decode(eventual_encoding=enc), "p0": lambda: root.decode(indent_level=0, eventual_encoding=enc),
-                    "c": lambda: node.decode_contents(eventual_encoding=enc)}[mode]()
+        try:
+            real_str = {"d": lambda: root.decode(eventual_encoding=enc), "p0": lambda: root.decode(indent_level=0, eventual_encoding=enc),
+                        "c": lambda: node.decode_contents(eventual_encoding=enc)}[mode]()
+        except Exception as ex:
+            real_str = "RAISED " + type(ex).__name__
         tt = tree_tokens(node)
         batch.ask("doc-render", f"render {mode} {tok(enc)} {tt}", tok(real_str), case)
-        if enc in SINGLE_BYTE:
+        if sb_name(enc):
             ent = {"encode": "e", "prettify": "p", "encode_contents": "c", "encode_contents_body": "c"}[entry]
             real_b = {"e": lambda: root.encode(enc), "p": lambda: root.prettify(enc), "c": lambda: node.encode_contents(encoding=enc)}[ent]()
-            batch.ask("doc-bytes", f"encode {ent} {tok(enc)} sb:{tok(enc)} {tt}", "B:" + btok(real_b), case)
+            batch.ask("doc-bytes", f"encode {ent} {tok(enc)} sb:{tok(sb_name(enc))} {tt}", "B:" + btok(real_b), case)
     return found
 
 
@@ -805,7 +901,13 @@ def check_doc_str(ctx, batch, recipe, e_enc, stream):
     soup = build_doc(recipe)
     case = {"op": "doc-str", "recipe": recipe, "eventual_encoding": e_enc}
     found = []
-    s = soup.decode(eventual_encoding=e_enc)
+    try:
+        s = soup.decode(eventual_encoding=e_enc)
+    except Exception as ex:
+        found.append("raised")
+        report(ctx, f"decode(eventual_encoding={e_enc!r}) raised {type(ex).__name__}", kind="raises:decode", case=case, expected="str",
+               observed=repr(ex)[:300], stream=stream)
+        return found
     info = recipe["meta"]
     style = info["style"]
     again = BS(s, "html.parser")
@@ -837,16 +939,54 @@ def stream_docs(ctx, batch):
     r = ctx.rng("docs")
     n = ctx.n(2500, 15000)
     for i in range(n):
-        enc = r.choice(ENCODINGS)
+        enc = pick_encoding(r)
         if not facts(enc).ascii_ok:
             continue
         recipe = gen_recipe(r, enc, ctx)
         for entry in (ENTRIES if i % 3 == 0 else r.sample(ENTRIES, 2)):
             check_doc(ctx, batch, recipe, enc, entry, "docs")
-        e_enc = r.choice([None, None, r.choice(PROP_PYTHON_SPECIFIC), r.choice(ENCODINGS)])
+        e_enc = r.choice([None, None, r.choice(PROP_PYTHON_SPECIFIC), pick_encoding(r)])
         check_doc_str(ctx, batch, recipe, e_enc, "docs")
         if len(batch.q) > 3000:
             batch.flush()
+    batch.flush()
+
+
+# --------------------------------------------------------------------------------------
+# stream: every accepted spelling of a target name x both meta styles x every entry point
+# --------------------------------------------------------------------------------------
+NAME_METAS = [
+    dict(markup='<meta charset="utf8">', style="charset", orig="utf8"),
+    dict(markup='<meta charset="\\g<1>">', style="charset", orig="\\g<1>"),
+    dict(markup='<meta http-equiv="Content-Type" content="text/html; charset=utf8">', style="content", orig="text/html; charset=utf8",
+         parts=dict(mime="text/html", sep=";", before="", w0=" ", key="charset", w1="", w2="", old="utf8", after="")),
+    dict(markup='<meta content="text/html\\1; x=\\2;CHARSET = \\g<1>; y=$1" http-equiv="content-type">', style="content",
+         orig="text/html\\1; x=\\2;CHARSET = \\g<1>; y=$1",
+         parts=dict(mime="text/html\\1", sep=";", before="; x=\\2", w0="", key="CHARSET", w1=" ", w2=" ", old="\\g<1>", after="; y=$1")),
+]
+
+
+def stream_names(ctx, batch):
+    names = valid_target_names()
+    ctx.extra["target_name_spellings"] = {"digit_leading": names["digit"], "other": len(names["other"]),
+                                          "rejected_by_this_cpython": names["rejected"]}
+    for enc in names["all"] + ENCODINGS:
+        f = facts(enc)
+        if not f.ascii_ok:
+            ctx.count("names:skipped-not-ascii-capable")
+            continue
+        text = "".join(ch for ch in "я ☃ é<&" if f.lawful(ch))
+        title = "".join(ch for ch in "é☃ \"&'" if f.lawful(ch))
+        for meta in NAME_METAS:
+            recipe = {"meta": meta, "items": [{"name": "p", "id": "n1", "attrs": [["title", title, None]], "kids": [{"text": text, "bait": None}]}]}
+            for entry in ENTRIES:
+                check_doc(ctx, batch, recipe, enc, entry, "names")
+            check_doc_str(ctx, batch, recipe, enc, "names")
+            if meta["style"] == "content":
+                check_subst(ctx, batch, meta["orig"], enc, content_expected(meta["parts"], enc, False), "names-subst")
+        ctx.count("names:" + ("digit-leading" if enc[:1].isdigit() else "other"))
+    ctx.exhaustive_parts.append(f"target-name spellings: {len(names['all'])} accepted spellings (digit-leading labels, case, separators, regex/format "
+                                "metacharacters) + the canonical list x 4 <meta> declarations x 4 entry points + decode(eventual_encoding)")
     batch.flush()
 
 
@@ -979,6 +1119,7 @@ def run(ctx: Ctx):
     stream_corpus(ctx, batch)
     stream_subst(ctx, batch)
     stream_setup(ctx, batch)
+    stream_names(ctx, batch)
     stream_xcr(ctx, batch)
     stream_reader(ctx, batch)
     stream_misc(ctx, batch)
@@ -1011,7 +1152,11 @@ def replay(path):
     if op == "doc-str":
         soup = build_doc(c["recipe"])
         print("document:", ascii(soup.decode(eventual_encoding=None)))
-        print(f"call: decode(eventual_encoding={c['eventual_encoding']!r}) ->", ascii(soup.decode(eventual_encoding=c["eventual_encoding"])))
+        try:
+            shown = ascii(soup.decode(eventual_encoding=c["eventual_encoding"]))
+        except Exception as ex:
+            shown = "raised " + repr(ex)
+        print(f"call: decode(eventual_encoding={c['eventual_encoding']!r}) ->", shown)
         found = check_doc_str(ctx, None, c["recipe"], c["eventual_encoding"], "replay")
         for w in found:
             print("VIOLATION:", w)
@@ -1019,7 +1164,10 @@ def replay(path):
         return 1 if found else 0
     if op == "subst":
         el = E()["el"]
-        real = el.ContentMetaAttributeValue(c["content"]).substitute_encoding(c["eventual_encoding"])
+        try:
+            real = el.ContentMetaAttributeValue(c["content"]).substitute_encoding(c["eventual_encoding"])
+        except Exception as ex:
+            real = "RAISED " + type(ex).__name__ + ": " + str(ex)[:80]
         print(f"ContentMetaAttributeValue({c['content']!r}).substitute_encoding({c['eventual_encoding']!r})")
         print("implementation:  ", repr(real))
         print("property demands:", repr(v.get("expected")), "   Lean model:", repr(untok(v["model_reply"])) if v.get("model_reply") else None)
